@@ -158,7 +158,7 @@ def random_sequences(seed: int, n: int, length: int):
 
 def _py_pixelmap_job(arg):
     """Extract the Python pixel map for a slice of VRAM bytes (base byte 0xFF = all pixels off)."""
-    base, todo = arg
+    base, todo, off_chip = arg
     vlib.setup_repo_imports()
     from pce500.display.controller_wrapper import HD61202Controller
     c = HD61202Controller()
@@ -168,6 +168,8 @@ def _py_pixelmap_job(arg):
         c.write(0x2000, 0x40, cpu_pc=0)
         for _ in range(64):
             c.write(0x2002, base, cpu_pc=0)
+    if off_chip is not None:
+        c.write(0x2000 | (0x8 if off_chip == 0 else 0x4), 0x3E, cpu_pc=0)       # switch one chip off again
     baseline = c.get_display_buffer().copy()
     out = []
     for (chip, page, col) in todo:
@@ -184,18 +186,51 @@ def _py_pixelmap_job(arg):
     return out
 
 
-def pixelmap(cr: CheckRun, impl: str, base: int, start: int = 0) -> None:
+def _extract_map(impl: str, base: int, start: int, off_chip):
     if impl == "py":
         todo = [(chip, page, col) for chip in range(2) for page in range(8) for col in range(64)]
         shards = [todo[i : i + 64] for i in range(0, len(todo), 64)]
-        res = vlib.pmap(_py_pixelmap_job, [(base, sh) for sh in shards])
-        table = [r for part in res for r in part]
-    else:
-        vh = Vh()
-        try:
-            table = vh.call("lcd.pixelmap", base=base, start=start)["map"]
-        finally:
-            vh.close()
+        res = vlib.pmap(_py_pixelmap_job, [(base, sh, off_chip) for sh in shards])
+        return [r for part in res for r in part]
+    vh = Vh()
+    try:
+        kw = {} if off_chip is None else {"off_chip": off_chip}
+        return vh.call("lcd.pixelmap", base=base, start=start, **kw)["map"]
+    finally:
+        vh.close()
+
+
+def one_chip_on(cr: CheckRun, impl: str, base: int, both: List[Any]) -> None:
+    """the pixel maps with one chip switched off: what the chip that is on shows must not depend on the other chip's state"""
+    d = vlib.scratch("C15")
+    bf = d / f"pixelmap-{impl}-both.ndjson"
+    vlib.write_ndjson(bf, both)
+    for on_chip in (0, 1):
+        table = _extract_map(impl, base, 0, 1 - on_chip)
+        tf = d / f"pixelmap-{impl}-only{on_chip}.ndjson"
+        vlib.write_ndjson(tf, table)
+        res = run_tlc(SD, "PixelMap", "PixelMap.cfg", workers=1, env={"TRACE_FILE": str(tf), "TRACE_FILE2": str(bf), "ONLY_CHIP": str(on_chip)},
+                      tag=f"C15-pixelmap-{impl}-only{on_chip}", jvm=["-Xss256m"], heap="4g", timeout=900)
+        verdict = None
+        for v in res.printed():
+            if isinstance(v, tuple) and v and v[0] == "PIXELMAP":
+                verdict = v
+        if verdict is None or len(verdict) < 4:
+            raise MachineryError(f"PixelMap (one chip on) judgement failed ({impl}): {verdict}\n{res.out[-1500:]}")
+        tf.unlink()
+        cr.cov["evaluations"] += len(table)
+        cr.cov.setdefault("pixelmaps", []).append({"impl": impl, "base": base, "only_chip_on": on_chip, "bits_probed": len(table), "own_chip_only": verdict[1]})
+        if verdict[1] != "ok":
+            ex = sorted(verdict[3])[:3]
+            cr.violation(f"PixelMap:OwnChipOnly:{impl}", f"{impl} display: with only chip {on_chip} switched on, {len(verdict[3])} of its VRAM bits no longer determine the pixels "
+                         f"they determine when both chips are on (e.g. <<chip, page, column, bit>> = {ex})", {"impl": impl, "base": base, "start": 0, "clause": "OwnChipOnly", "on_chip": on_chip})
+    bf.unlink()
+
+
+def pixelmap(cr: CheckRun, impl: str, base: int, start: int = 0) -> None:
+    table = _extract_map(impl, base, start, None)
+    if start == 0 and base == 0xFF:
+        one_chip_on(cr, impl, base, table)
     d = vlib.scratch("C15")
     tf = d / f"pixelmap-{impl}-{base}-{start}.ndjson"
     vlib.write_ndjson(tf, table)
